@@ -4,6 +4,8 @@ import (
 	"encoding/json"
 	"fmt"
 	"os"
+	"path/filepath"
+	"sort"
 	"regexp"
 	"strings"
 	"time"
@@ -345,6 +347,12 @@ func runC09(r *hx.Run, replay string) {
 		return
 	}
 	rr := r.Rng
+	c09Load(r)
+	if os.Getenv("PINT_BIN") != "" {
+		for i := 0; i < 1+r.N/100; i++ {
+			c09Spelling(r)
+		}
+	}
 	for i := 0; i < r.N; i++ {
 		c09Merge(r)
 	}
@@ -362,11 +370,12 @@ func runC09(r *hx.Run, replay string) {
 	}
 }
 
-// c09File: like enFile but without control comments and without unparsable durations
+// c09File: like enFile but without control comments (a `for` value that is not a duration stays in: it satisfies no
+// duration condition)
 func c09File(r *hx.Run) string {
 	for {
 		f := enFile(r)
-		if !strings.Contains(f, "# pint") && !strings.Contains(f, "for: abc") {
+		if !strings.Contains(f, "# pint") {
 			return f
 		}
 	}
@@ -416,5 +425,84 @@ func c09Merge(r *hx.Run) {
 	if fmt.Sprint(after) != fmt.Sprint(akv) {
 		r.Violate(hx.Violation{Class: "mergemaps-modifies-group-labels", Input: map[string]any{"group": akv, "rule": bkv},
 			Observed: map[string]any{"group_labels_after_merge": after}, Expected: "merging rule labels over group labels leaves the group's labels as they were"})
+	}
+}
+
+// c09Load: sub-blocks whose conditions cannot mean anything are refused when the configuration is loaded (the code's own
+// contract: "ignore block must have at least one condition", command and state values are checked)
+func c09Load(r *hx.Run) {
+	tmpl := "rule {\n  %s\n  name \"markerzz\" {\n    severity = \"info\"\n  }\n}\n"
+	for _, c := range []struct {
+		block string
+		loads bool
+	}{
+		{`ignore { state = ["any"] }`, true},
+		{`match { command = "lint" }`, true},
+		{`ignore { command = "ci" }`, true},
+		{`ignore { }`, false},
+		{`ignore { state = [] }`, false},
+		{`match { command = "lnit" }`, false},
+		{`ignore { command = "CI" }`, false},
+		{`match { state = ["changed"] }`, false},
+		{`match { kind = "alert" }`, false},
+		{`match { for = "abc" }`, false},
+		{`ignore { keep_firing_for = "> x" }`, false},
+	} {
+		env, err := enLoad(r, fmt.Sprintf(tmpl, c.block))
+		if err == nil {
+			env.Close()
+		}
+		r.Case("load"+c.block, true)
+		r.Count(fmt.Sprintf("load-probe:%v", c.loads))
+		if (err == nil) != c.loads {
+			r.Violate(hx.Violation{Class: "condition-validation", Input: map[string]any{"block": c.block}, Observed: map[string]any{"loads": err == nil, "error": fmt.Sprint(err)},
+				Expected: map[string]any{"loads": c.loads}, Note: "a sub-block without a usable condition (or with a value no rule can have) is a configuration error, not a block that matches everything or nothing"})
+		}
+	}
+}
+
+// c09Spelling: a path condition sees the same file under every way of typing its path on the command line
+func c09Spelling(r *hx.Run) {
+	rr := r.Rng
+	dir, err := os.MkdirTemp("", "c09s-")
+	if err != nil {
+		panic(err)
+	}
+	defer os.RemoveAll(dir)
+	pat := hx.Pick(rr, []string{"rules/.*", "rules/a.yml", "rules/sub/.+", ".*/b.yml", "rules/[ab].yml"})
+	kind := hx.Pick(rr, []string{"match", "ignore"})
+	cfg := fmt.Sprintf("rule {\n  %s { path = %q }\n  name \"markerzz\" {\n    severity = \"info\"\n  }\n}\n", kind, pat)
+	files := map[string]string{"rules/a.yml": c09File(r), "rules/b.yml": c09File(r), "rules/sub/c.yml": c09File(r)}
+	for p, c := range files {
+		_ = os.MkdirAll(filepath.Dir(filepath.Join(dir, p)), 0o755)
+		_ = os.WriteFile(filepath.Join(dir, p), []byte(c), 0o644)
+	}
+	_ = os.WriteFile(filepath.Join(dir, ".pint.hcl"), []byte(cfg), 0o644)
+	target := hx.Pick(rr, hx.SortedKeys(files))
+	spellings := []string{target, "./" + target, "rules/../" + target, filepath.Dir(target) + "//" + filepath.Base(target), "./rules/../" + target}
+	var base string
+	for i, sp := range spellings {
+		res := hx.RunCmd(dir, 60*time.Second, nil, hx.PintBin(), "--offline", "-l", "error", "--no-color", "lint", "--json", "out.json", sp)
+		b, _ := os.ReadFile(filepath.Join(dir, "out.json"))
+		_ = os.Remove(filepath.Join(dir, "out.json"))
+		var reports []c05JSON
+		_ = json.Unmarshal(b, &reports)
+		var got []string
+		for _, rep := range reports {
+			got = append(got, fmt.Sprintf("%s %s %v %s", filepath.Clean(rep.Path), rep.Reporter, rep.Lines, rep.Problem))
+		}
+		sort.Strings(got)
+		out := fmt.Sprintf("exit=%d\n%s", res.Exit, strings.Join(got, "\n"))
+		if i == 0 {
+			base = out
+			continue
+		}
+		r.Case("spell"+cfg+sp+files[target], true)
+		r.Count("path-spellings")
+		if out != base {
+			r.Violate(hx.Violation{Class: "path-spelling", Input: map[string]any{"config": cfg, "files": files, "argument": sp, "plain": target},
+				Observed: out, Expected: base, Note: "the same file, named another way on the command line, is selected by the same rule blocks"})
+			return
+		}
 	}
 }
